@@ -230,4 +230,11 @@ def c17_e(ctx: Ctx):
      ("signac.linked_view:_find_dead_branches", "branch", "children of the root are visited with an empty branch list; treated as 'root call' their own node is not appended and every obsolete path loses its first component")])
 
 
-RULES = [c17_a, c17_b, c17_c, c17_d, c17_e]
+@rule("C17-f")
+def c17_f(ctx: Ctx):
+    """Per-job / per-entry loops are independent: nothing read in one iteration was computed in another."""
+    from .lints import per_item_loops
+    return per_item_loops(ctx, "C17-f", [('signac.linked_view:create_linked_view', 'a job is linked under the path computed for the previous one'), ('signac.linked_view:_update_view', 'a link is created from the data of the previous one'), ('signac.linked_view:_analyze_view', 'a link is classified by the data of the previous one')])
+
+
+RULES = [c17_a, c17_b, c17_c, c17_d, c17_e, c17_f]
